@@ -3,6 +3,11 @@ Independent statement of the PDU length of every function code the frame-length 
 per direction, from the PDU layouts of the Modbus Application Protocol v1.1b3 (§6) and the
 serial-line diagnostics functions; and of the predictor those lengths imply for an ADU whose PDU
 starts `hdr` bytes into the buffer.
+
+SCOPE.  The table lists the function codes the crate's predictors SUPPORT (its documented set), with the
+lengths the Modbus documents give them.  Codes the documents define but the crate does not frame
+(0x08 and 0x11 responses, 0x14, 0x15, 0x2B, exception responses for functions above 0x2B) are `unknown`
+here too: "rejected with an error" in C15 and "frameable" in C04/C05/C10 are relative to this set.
 -/
 namespace Modbus.Spec
 
